@@ -267,6 +267,9 @@ def _matrix_reflected_div(
 ) -> MatrixExpression:
     """Element-wise ``other / M`` for a scalar or an array of M's shape on the left."""
     rows, cols = shape
+    if isinstance(other, (list, tuple)):
+        # Same conversion as the non-reflected operators
+        other = np.asarray(other)
     if isinstance(other, np.ndarray) and other.ndim > 0:
         if other.shape != (rows, cols):
             raise DimensionMismatchError(
